@@ -72,8 +72,10 @@ type MergeCompactionIterator struct {
 	reduce  func([]byte, [][]byte, []int) ([]byte, []byte)
 	pq      pq.PriorityQueueI[[]byte, []byte, int]
 	prevKey []byte
-	valBuf  [][]byte
-	ctxBuf  []int
+	// hasPrevKey tells whether prevKey was set already, as the empty key is a valid key that can be nil
+	hasPrevKey bool
+	valBuf     [][]byte
+	ctxBuf     []int
 }
 
 func (m *MergeCompactionIterator) Next() ([]byte, []byte, error) {
@@ -83,9 +85,10 @@ func (m *MergeCompactionIterator) Next() ([]byte, []byte, error) {
 			if errors.Is(err, pq.Done) {
 				if len(m.valBuf) > 0 {
 					kReduced, vReduced := m.reduce(m.prevKey, m.valBuf, m.ctxBuf)
-					if kReduced != nil && vReduced != nil {
-						// clear the buffer, so we don't infinite loop on the last elements
-						m.valBuf = m.valBuf[:0]
+					// clear the buffer, so we don't infinite loop on the last elements
+					m.valBuf = m.valBuf[:0]
+					// a nil value signals that the key should be skipped (a nil key is the empty key)
+					if vReduced != nil {
 						return kReduced, vReduced, nil
 					}
 				}
@@ -95,11 +98,13 @@ func (m *MergeCompactionIterator) Next() ([]byte, []byte, error) {
 			}
 		}
 
+		emit := false
 		var toReturnKey, toReturnVal []byte
 		//we have to accumulate the whole sequence
-		if m.prevKey != nil && m.comp.Compare(k, m.prevKey) != 0 {
+		if m.hasPrevKey && m.comp.Compare(k, m.prevKey) != 0 {
 			kReduced, vReduced := m.reduce(m.prevKey, m.valBuf, m.ctxBuf)
-			if kReduced != nil && vReduced != nil {
+			if vReduced != nil {
+				emit = true
 				toReturnKey = kReduced
 				toReturnVal = vReduced
 			}
@@ -108,10 +113,11 @@ func (m *MergeCompactionIterator) Next() ([]byte, []byte, error) {
 		}
 
 		m.prevKey = k
+		m.hasPrevKey = true
 		m.valBuf = append(m.valBuf, v)
 		m.ctxBuf = append(m.ctxBuf, c)
 
-		if toReturnKey != nil && toReturnVal != nil {
+		if emit {
 			return toReturnKey, toReturnVal, nil
 		}
 	}
